@@ -10,46 +10,46 @@ import json, os, subprocess, sys
 ROOT = os.path.dirname(os.path.dirname(os.path.abspath(__file__)))
 
 TEXT = {
- "C01": ("Theorems: signal discipline of the whole evaluator (break/continue/return never leave a construct that syntactically confines them) and of the rule driver (next/exit consumed in every rule kind, in patterns, functions and selectors), hence `run_never_sentinel`; the master invariant keeps the root frame. Absence of Go panics is NOT a theorem: it is covered by the correspondence run (grammar-directed programs with control statements in every context, token mutations, arbitrary bytes, selectors, malformed input; any panic/untyped error/timeout is a violation by itself) and by the regenerated list of explicit panic sites.",
-         "Lean kernel; model validated by the correspondence run, not proved; well-scopedness of parsed programs is a theorem about the model parser (or, where not yet proved, re-checked on every parsed program of the run: field ws)."),
- "C02": ("Theorems: the rule schedule as equations on the model driver (partition by kind in source order, pattern test, next abandons the remaining rules of the element only, exit ends the run without END, per-element iteration with $ and $index, BEGINFILE / pattern rules / ENDFILE order and their $ bindings, files in order). Correspondence: tagged-trace programs over all mixes of rule kinds, 0-3 files x 0-3 values x 0-2 selectors x all root shapes, plus an independent Go reading of the schedule as oracle.",
+ "C01": ("Theorems (`run_outcome_classified`): for every program text, selector list and input the model's run ends in success, a syntax error, a runtime error or a JSON error — never an internal signal (signal discipline of all 15 evaluator functions and of the driver + the parser's well-scopedness theorem) and never a panic (a third whole-evaluator induction with a region-indexed heap invariant makes the five places where the model marks a Go panic unreachable, selectors' nested evaluator included). Correspondence: grammar-directed programs with control statements in every context, token mutations, arbitrary bytes, selectors, malformed input, panic-prone operations on edge operands, runaway recursion; any panic / untyped error / crash / timeout of the real code is a violation by itself. Known finding K1 (Go stack overflow before the call-depth limit) is reported as KNOWN-FINDING.",
+         "Lean kernel; the theorem is about the model: Go-level memory safety where the model is total (index arithmetic, nil maps) is covered by the correspondence run and the regenerated list of explicit panic sites, not proved."),
+ "C02": ("Theorems: the whole driver equals an executable schedule specification (`runProgram_eq_spec`: BEGIN once, files/values/selector roots in order, BEGINFILE / per-element pattern rules / ENDFILE, END once; one loop combinator, one handler for `next`, nothing handles `exit`), with exact layer lemmas and clause corollaries (rules in source order, pattern test, next affects one element, exit runs nothing more, $ / $index / $file bindings, body-less rule prints $). Correspondence: tagged-trace programs over all mixes of rule kinds, selectors, files, JSONL, programs assigning $file/$index/$, programs with up to 60 rules, long schedules; an independent Go reading of the schedule predicts class and output.",
          "Lean kernel; model validated against the real driver by the correspondence run."),
- "C03": ("Theorems: the decoder model (byte-exact port of encoding/json Decoder.Decode) is prefix-stable (a value determined by the bytes read so far is not changed by later bytes or any chunking), the driver ends a file normally only on a clean end of stream (`never_silent`), reports a fault with the file name without running any rule on the partial value. Correspondence: every chunking of short streams exhaustively, random chunkings, every truncation point and single-byte corruption, reader failures at every offset, incrementality marks; oracle: Go's own decoder on the same bytes.",
-         "Lean kernel; the decoder port is differentially tested against encoding/json (3.7M cases, stdlib/json) and against the real runs; blocking reads through a real pipe are not exhibited (runtime behaviour)."),
- "C04": ("Theorems: conversion to JSON terminates on every heap (cyclic or not), empties are preserved at any depth, a cyclic value / function / regex / non-finite number is rejected, conversion succeeds exactly for acyclic JSON-expressible values, and document -> value -> JSON is the identity up to key order and number formatting (`newValue_roundtrip`). Correspondence: documents with empties, escapes, non-ASCII, numeric extremes through -o and json(), program-built values incl. cycles; oracle: Go's decoder re-parses the output to the input tree.",
+ "C03": ("Theorems: the decoder model (byte-exact port of encoding/json Decoder.Decode) is prefix-stable; the driver processes `pre ++ more` by first doing exactly what it does on `pre` and then only appending output (`prefix_processed_first`, any program/selectors/split/stream end); a file ends normally only on a clean end of stream, a fault is reported with the file name without running a rule on the partial value. Correspondence: every chunking of short streams, data delivered with the terminal error, empty reads, values above 64 KiB, truncation/corruption/reader failure at every offset, $file assigned before a fault, FIFOs and open pipes through the real binary (output visible before the rest of the stream is sent).",
+         "Lean kernel; the decoder port is differentially tested against encoding/json (3.7M cases) and against the real runs; blocking reads are runtime behaviour exhibited only by the binary-level family."),
+ "C04": ("Theorems: conversion to JSON terminates on every heap (cyclic or not), succeeds exactly for acyclic JSON-expressible values, preserves empties at any depth, and document -> value -> JSON is the identity up to key order and number formatting (`newValue_roundtrip`). Correspondence: documents with empties, escapes, `%`, non-ASCII, nesting up to the decoder's 10 000 levels, shared and cyclic program-built values, through json(), -o in-process and -o FILE / -o - of the real binary (also onto existing files); Go re-parse oracle.",
          "Lean kernel; MarshalIndent/Decoder ports differentially tested against encoding/json; number formatting via the exact F64 port (tested against strconv)."),
- "C05": ("Theorems: the code-shaped operator evaluation equals the kind-indexed tables of DESIGN.md section 3 for every operator and all operand values; divide/modulo error iff the (truncated) divisor is zero; + concatenates iff an operand is a string; unset/null/container comparison rules; short-circuit: the right operand of && || is not evaluated when not needed, `is` never evaluates its right side. Correspondence: every binary operator x every ordered pair from a 39-value pool covering all nine kinds (exhaustive), operands as literals, variables and document fields, unary/++/--/is.",
-         "Lean kernel; IEEE arithmetic, ParseFloat/FormatFloat and the RE2 subset are exact Lean re-implementations differentially tested against Go (stdlib/)."),
- "C06": ("Theorems: the generated Pratt table equals the documented levels; every ordered pair and triple of binary operators parses to the documented grouping (finite, by kernel evaluation of the model parser); minimal parenthesisation parses to the same tree as full parenthesisation for the covered grammar at any depth. Correspondence: random expression trees rendered minimally / fully / redundantly, AST dumps compared with the real parser, values compared.",
-         "Lean kernel; regenerated facts tie the table and the operand precedences of binary/assign/unary to src/parser.go."),
- "C07": ("Theorems: unfolding laws of if / block / while / for / for-in (post-expression after completed and continued iterations, items visited once in order), loops absorb break/continue, calls absorb return, next/exit propagate. Correspondence: nested structured programs with a print trace after every statement and every jump statement at random positions, iteration over arrays, objects, strings.",
-         "Lean kernel; structural mutation of an array during its own iteration is deliberately unmodelled."),
- "C08": ("Theorems (master invariant, for every outcome of every evaluator function): the frame stack has the same depth afterwards, deeper frames untouched, a user-function call restores it exactly, locals vanish, $ and root untouched; binding by position. Correspondence: functions of arity 0-4 with 0-6 arguments in every position, recursion, long histories (10k-200k elements) with depth read back through the hook.",
+ "C05": ("Theorems: the code-shaped operator evaluation equals the kind-indexed tables of DESIGN.md section 3 for every operator and all operand values; divide/modulo error iff the (truncated) divisor is zero; + concatenates iff an operand is a string; unset/null/container comparison rules; short-circuit; `is` never evaluates its right side. Correspondence: all 15 operators x 39^2 operand pairs, operands from variables/fields/expression results, literal spellings, numerals at the double range limits, the same operator node evaluated repeatedly with changing operands, non-UTF-8 patterns (Go regexp as oracle).",
+         "Lean kernel; IEEE arithmetic, ParseFloat/FormatFloat and the RE2 subset are exact Lean re-implementations differentially tested against Go."),
+ "C06": ("Theorems: `table_ok` (the regenerated Pratt table has the documented levels); all pairs (225) and triples (3375) of binary operators, assignment pairs and parenthesised pairs by complete kernel enumeration; `parse_render` / `parse_render_full` / `parse_render_redundant`: for expressions of ANY depth over the whole expression grammar except regex literals and match, parser ∘ printer = id for minimal, full and arbitrarily redundant parenthesisation; left/right associativity corollaries. Correspondence: random expression trees in five renderings incl. tight (no blanks), prefix/suffix chains on every atom kind, regex literals as operands everywhere; same AST and same value.",
+         "Lean kernel; regenerated facts tie the table (parse functions identified by role) and the operand precedences to src/parser.go."),
+ "C07": ("Theorems: whole-loop characterisations for the real evaluator at any fuel: `while_unrolled`, `for_k_iterations` (post after completed and continued iterations, not after break), `forIn_eq_fold` with every item visited once in order (sorted keys for objects, byte offsets for strings), innermost-loop discipline through any nesting (`abnormal_end_propagates`, `loop_statements_confine`), `dangling_else_any` (parser), `return_from_any_nesting`, `fuel_irrelevant`; plus one-step unfolding laws. Correspondence: nested structured programs with a print trace after every statement and jumps at random positions (reference interpreter in Go), next/exit from patterns and special rules over several roots, loops of up to 10^6 iterations, write-ahead into iterated containers.",
+         "Lean kernel; one corner of Go's slice semantics (for-in over an array that the body pops and then pushes) is deliberately unmodelled (DESIGN section 2) and excluded from the generators."),
+ "C08": ("Theorems (master invariant, for every outcome of every evaluator function): the frame stack is restored exactly, deeper frames untouched, locals vanish, $ and root untouched, parameters bound by position to fresh cells holding copies (C09 `params_bound_fresh`, `call_args_are_copies`), the return slot, depth counts nesting only. Correspondence: functions of arity 0-4 with 0-6 arguments in 27 positions, argument lists with side effects on earlier arguments, names clashing with builtins/globals/parameters, missing members as arguments, match bodies left by every exit path, recursion, histories of 10k-200k records with the frame depth read back (hook).",
          "Lean kernel; model validated by the correspondence run."),
- "C09": ("Theorems: copy-versus-share per kind, copyValue writes exactly the target cell, the member step on a non-unset base changes no existing cell/array/object (reads never change the input; reading past the end does not pad), SetMember frame rules for objects and in-range array elements, negative indices, refusals, compound assignment desugaring. Correspondence: statement sequences with aliasing, whole-state dump after every statement, -o compared; read-only oracle: output document equals input document.",
-         "Lean kernel; the frame rule for the full assignment statement (speculative parents) is covered by correspondence only."),
- "C10": ("Theorems: rendering, JSON conversion, for-in and member lookup are independent of the order in which an object's members were inserted (Go map order) — sortByKey canonical for distinct keys; the run is a function of program, selectors and input. Regenerated facts: every range over a Go map, every package-level variable and the import list of the interpreter. Correspondence: repeated runs, fresh-process versus long-lived-process runs after poisoning histories.",
-         "Lean kernel; absence of hidden state in Go is argued from the regenerated facts, not proved."),
- "C11": ("Theorems: a syntax error pre-empts all output; ghost fault counter: an evaluation that completes normally raised no fault, one that fails raised exactly one and printed nothing after it (every syntactic position, by the master invariant); output only appended. Correspondence: syntax errors spliced at every token boundary, each runtime fault kind injected at each evaluated position.",
+ "C09": ("Theorems: `readonly_expr` / `readonly_stmt` / `readonly_methods`: evaluating any expression or statement without assignment, ++/--, for-in and mutating calls leaves every existing cell, array and object unchanged (whole-evaluator induction; false before defect D48 was repaired), `readonly_document_unchanged`; exact effect + frame rule of whole assignments incl. creation of any number of missing levels, padding, unset bases (`assign_chain_frame`, `assign_unset_base_*`), `read_after_write`; copy on assignment / argument passing / literals / push and sharing of containers; negative indices, refusals, compound desugaring. Correspondence: statement sequences with aliases against an ideal interpreter written from the property text, overlapping -r roots, updates through loop variables and method results, read-only programs with -o equal to the input.",
+         "Lean kernel; read-after-write for computed and negative indices is covered by correspondence only."),
+ "C10": ("Theorems: rendering, JSON conversion, for-in and member lookup are independent of the order in which an object's members were inserted (sortByKey canonical); the model's run is a function of program, selectors and input. Regenerated facts: every range over a Go map, every package-level variable that is written, the import list. Correspondence: repeated runs in one process and in fresh processes (~1500), object keys incl. invalid UTF-8, shared argument slices between runs, -o file histories through the binary, read boundaries, error-choice under map order.",
+         "Lean kernel; absence of hidden state in Go is argued from the regenerated facts and the repetition families, not proved."),
+ "C11": ("Theorems: a syntax error pre-empts all output; `run_fault_discipline`: for every program, selectors and input, a run that ends successfully (or with a JSON error) raised no runtime fault anywhere, one that ends in a runtime error raised exactly one and printed nothing after it (ghost fault counter through evaluator and driver); output only appended; static rejections. Correspondence: illegal bytes / control bytes / unterminated literals spliced at every token boundary, 140 fault kinds x 141 evaluated positions, failing stores, unknown $-names, invalid regexes of every kind, output before a fault through the real binary.",
          "Lean kernel; model validated by the correspondence run."),
- "C12": ("Theorems: GetLineAndCol equals the split-at-newline specification for every offset (line = 1 + newlines before, column = distance to line start, text = that line), quoted line is line N of the program, lexer errors point into the text and, for an illegal character, exactly at it. Correspondence: every byte offset of generated multi-line texts, error positions of lexical/syntactic/runtime faults on multi-line programs.",
-         "Lean kernel; which token an error is attached to is validated by correspondence (line/col/src compared), not proved."),
- "C13": ("Theorems: horizontal trivia and comments are invisible to the lexer (same token, same successor state), number/keyword/string token shapes, evaluation-time escapes, the parser is parametric in token positions (any two sources producing the same tokens up to positions give the same AST up to positions, any fuel). Correspondence: 8+ layouts of each token sequence, all bytes in every lexer position class, adjacent-token combinations.",
-         "Lean kernel; newline-insertion and `;`-for-newline clauses are covered by correspondence (metamorphic layouts) only."),
- "C14": ("Correspondence of the real binary with the library and the model: -f = inline, stdin = file, -o FILE = -o -, argv order, -r E = BEGINFILE { $ = E }, exit status and stderr; theorems about a small model of the command line.",
-         "Lean kernel for the wrapper model; flag parsing by package flag and the OS are trusted."),
- "C15": ("Theorems: push/pop/popfirst/length refine the ideal list for any operation sequence, contains agrees with == element by element, sort returns a stably sorted permutation and leaves the receiver untouched. Correspondence: random operation sequences on aliased arrays with nested method calls, ideal-list oracle.",
+ "C12": ("Theorems: GetLineAndCol equals the split-at-newline specification for every offset; provenance: every position any run can report — syntax, lexical, runtime, program or -r selector — is the offset of a token of the text it is reported with (or of the offending byte of a lexical error), by inductions over the 14 parser and 15 evaluator functions (`reported_position_in_text`, `runtime_error_pos_is_token`); illegal characters exactly on the byte. Correspondence: every byte offset of multi-line texts with hostile prefixes (multi-line literals, CRLF, multi-byte), error positions of every fault kind incl. the depth limit through every frame parity, selector faults, and the binary's three diagnostic lines parsed back (several files, -f, leading blank lines).",
+         "Lean kernel; WHICH token a given fault blames is validated by correspondence (line/col/src compared), not proved."),
+ "C13": ("Theorems: blanks and comments are invisible to the lexer; number / keyword / string token shapes; escapes; the parser is parametric in token positions; `newline_insertion_bytes`: in ANY program text a newline (or blanks/comment + newline) may be inserted at any token boundary as the parser lexed it, except after print/return, after a print-level comma and before `;`, without changing the AST (each exclusion shown necessary); `semicolon_for_newline_bytes`. Correspondence: 8+ layouts of each token sequence incl. CR/LF/tabs/comments, forbidden gaps, all 256 bytes in 19 lexer contexts, words/numbers adjacency, string literals.",
+         "Lean kernel; the byte-level theorems hold for rule tables satisfying a decidable condition that the real table meets (checked by decide)."),
+ "C14": ("Theorems about a model of the command line (exit status, -o FILE = -o -, -f = inline, stdin = file, missing file, order of files and selectors) and `r_behaves_as_beginfile_rule(_builtins)(_cli)`: for selectors built from $, literals, member/index chains, array/object literals, every method call, operators and match expressions (and the builtins when the program never rebinds them), and programs whose ENDFILE rules do not read $, the whole run with -r E and the run with the extra rule BEGINFILE { $ = E } have the same outcome, output, JSON and exit status — a relational induction over the evaluator up to renaming of cell ids. Correspondence: the real binary against library and model (hostile arguments, existing -o targets, stdin as pipe/file/socket/closed, FIFOs).",
+         "Lean kernel for the wrapper model; flag parsing by package flag and the OS are trusted; several -r flags are covered by correspondence (their order is a C02 theorem)."),
+ "C15": ("Theorems: push/pop/popfirst/length refine the ideal list for any operation sequence, contains agrees with == element by element, sort returns a stably sorted permutation and leaves the receiver untouched. Correspondence: random operation sequences on aliased arrays with nested method calls, the same call site active twice, histories of up to 5000 elements across capacity thresholds; ideal-list oracle.",
          "Lean kernel; model validated by the correspondence run."),
- "C16": ("Theorems: split/join laws, pluck selects own members only, ASCII case mapping, num(), totality of every native on every receiver kind. Correspondence: pools of receivers and arguments; oracles: join equals the string, Go math.Floor/Ceil/Round on the same double.",
+ "C16": ("Theorems: split/join laws, pluck selects own members only, ASCII case mapping, num() = nearest double / null, floor/ceil/round specification, totality of every native on every receiver kind. Correspondence: pools of receivers and arguments, digit strings of every length around int32/int53/int64/uint64 boundaries; oracles: join equals the string, Go math.* and strconv.ParseFloat on the same input.",
          "Lean kernel; Unicode case mapping outside ASCII is unmodelled (skipped and counted)."),
- "C17": ("Theorems: rendering terminates on every heap, the cycle marker appears exactly at a container that is its own ancestor, shared containers are printed in full, print emits one chunk `args joined by a space + newline`. Correspondence: values of all nestings, shared and cyclic structures, numeric extremes; oracles: re-parse with Go's decoder, numbers read back bit-identically.",
+ "C17": ("Theorems: rendering terminates on every heap, the cycle marker appears exactly at a container that is its own ancestor, shared containers are printed in full, print emits one chunk `args joined by a space + newline`. Correspondence: values of all nestings, shared and cyclic structures, numeric extremes, bare print after in-place updates, values carrying internal bookkeeping (missing elements, characters, method values); oracles: Go re-parse, numbers read back bit-identically.",
          "Lean kernel; FormatFloat is an exact port tested against strconv."),
- "C18": ("Theorems: padding law (length = max(|w|, n), never truncates, side and pad byte), printf is atomic (nothing written on any error), a format without % is written unchanged, width limit. Correspondence: format grammar x argument lists; oracle: a reference formatter written from the property text.",
+ "C18": ("Theorems: padding law (length = max(|w|, n), never truncates, side and pad byte), printf refines a two-phase reference formatter, is atomic (nothing written on any error), a format without % is written unchanged, width limit. Correspondence: format grammar x argument lists, faults after up to 1 MB of rendered output, 20-digit widths; reference formatter written from the property text.",
          "Lean kernel; model validated by the correspondence run."),
- "C19": ("Theorems: cases are tried in source order, the first matching case is the only one whose body runs (later cases do not occur in the result equation), literal patterns agree with ==, identifier/array pattern rules, bindings visible in the body and gone afterwards. Correspondence: subjects of every kind x case lists with alternatives, nested array patterns, catch-alls; reference matcher oracle.",
+ "C19": ("Theorems: `evalMatch_iff_spec`: the evaluator's match equals a reference matcher (`patMatches` by structural recursion, `firstMatch`), fuel-free; corollaries: subject evaluated once, first alternative / first case wins, literal pattern = ==, array patterns element-wise on equal length, failed alternatives' bindings invisible, block body and no match yield null, bad patterns are errors only when reached, bindings dropped afterwards. Correspondence: 41 subjects x literal case lists, structured patterns with perturbed alternatives and hostile identifier names, subjects with side effects, recursive re-entry; reference matcher in Go.",
          "Lean kernel; model validated by the correspondence run."),
- "C20": ("Theorems: a frame push beyond the limit is refused; no evaluation of any shape ever has more than callDepthLimit+1 frames open (ghost maxDepth, master invariant); array fill refused above 2^20 and exact at or below it; regenerated facts pin the three constants. Correspondence: boundary programs at limit-1/limit/limit+1 for recursion shapes, fill indices, printf widths, JSON nesting.",
-         "Lean kernel; that 4096 jqawk frames fit in Go's stack is runtime evidence (the boundary programs run without crashing), not proof."),
+ "C20": ("Theorems: a frame push beyond the limit is refused; no evaluation of any shape ever has more than callDepthLimit+1 frames open (ghost maxDepth, master invariant); array fill refused above 2^20 and exact at or below it; printf width limit; regenerated facts pin the constants. Correspondence: boundary programs at limit-1/limit/limit+1 for 8 recursion shapes and 5 contexts, also after histories of up to 200 000 records, fill indices incl. not-yet-arrays and huge values, 25-digit widths, JSON nesting at 10 000. Known finding K1 (the frame limit does not bound the Go stack) is reported as KNOWN-FINDING.",
+         "Lean kernel; that 4096 jqawk frames fit in Go's stack is runtime evidence, and K1 shows it fails for deeply nested bodies."),
 }
 
 
